@@ -276,8 +276,13 @@ def strategy(tier):
             big = st.sampled_from([MAXSIZE, -MAXSIZE, MAXSIZE + 1, -MAXSIZE - 1, 4 * MAXSIZE, 8 * MAXSIZE, 12 * MAXSIZE,
                                    -4 * MAXSIZE, -8 * MAXSIZE, 2 ** 70, -2 ** 70, 2 ** 53 + 1, 2 ** 53 + 3, 10 ** 17 + 3,
                                    10 ** 17 + 1, -(2 ** 60) - 7, 10 ** 17 + 5])
-            kind = draw(st.integers(0, 6))
-            if kind == 6:       # a cluster of huge scores a few units apart: equal as floats, different as integers
+            kind = draw(st.integers(0, 7))
+            if kind == 7 and mode not in (0, 1, 4, 5):
+                kind = 6
+            if kind == 7:       # exact integers beyond the float range: minimum, maximum and sum of integers never leave the integers
+                base = wone_of(st.sampled_from([10 ** 400, -10 ** 400, 2 ** 1024, 2 ** 1024 + 1, -2 ** 1024 - 1, 10 ** 400 + 1, 2 ** 1023]),
+                               st.sampled_from([10 ** 400, -10 ** 400, 2 ** 1024, 2 ** 1024 + 1]), st.integers(-5, 5))
+            elif kind == 6:       # a cluster of huge scores a few units apart: equal as floats, different as integers
                 anchor = draw(st.sampled_from([2 ** 53, 2 ** 60, 10 ** 17, -2 ** 62, 2 ** 64, -10 ** 18]))
                 base = st.integers(0, 9).map(lambda k, _a=anchor: _a + k)
             elif kind == 0:
